@@ -12,6 +12,7 @@ import (
 	"fmt"
 	"reflect"
 	"regexp"
+	"strings"
 )
 
 // IsSafeTrustedResourceURLPrefix returns whether the given prefix is safe to use as a
@@ -31,6 +32,11 @@ import (
 // an initial / which is not followed by another / or \ will end up in the "path state" and from there
 // it can only go to the "fragment state" and "query state".
 func IsSafeTrustedResourceURLPrefix(prefix string) bool {
+	// A URL parser removes every tab, line feed and carriage return before it looks at
+	// anything else: "/\t/host/" is the scheme-relative URL "//host/".
+	if strings.ContainsAny(prefix, "\t\n\r") {
+		return false
+	}
 	return safeTrustedResourceURLPrefixPattern.MatchString(prefix)
 }
 
